@@ -139,8 +139,10 @@ Definition sres_node (r : sres) : node :=
 
 Definition eng_selector (inp impl : node) : verdict :=
   match inp with
-  | List [Str _; List segs; v] =>
-      match segs_of_nodes segs with
+  | List [Str text; List segs; v] =>
+      (* the selector is what its text means (the model's parser); the segments the implementation's parser
+         produced are only used for a text outside the modelled grammar *)
+      match (match sel_parse text with Ok ps => Some (sel_segs ps) | _ => segs_of_nodes segs end) with
       | Some sel =>
           let m := sres_node (select sel v) in
           {| model_obs := m; violated := if node_eqb m impl then [] else [lit "C12"] |}
@@ -521,8 +523,13 @@ Definition eng_container (inp impl : node) : verdict :=
   | List [Str fmt; Bytes s; List facts; List extra; expect] =>
       let m := ctn_obs (ctn_read fmt facts extra s) in
       let want := match expect with List _ => List [Str (lit "ok"); expect] | _ => m end in
+      let ok := match impl with List [a; b] => node_eqb a want && node_eqb b want | _ => false end in
+      let is_okobs (n : node) := match n with List (Str k :: _) => str_eqb k (lit "ok") | _ => false end in
+      (* both sides return tokens, but not under the same CIDs: the reader's keys are not the content
+         addresses of the sealed bytes (C08 observes the keys of container.Reader) *)
+      let keyed_wrong := negb ok && is_okobs want && match impl with List [a; b] => is_okobs a || is_okobs b | _ => false end in
       {| model_obs := List [m; m];
-         violated := c17 (match impl with List [a; b] => node_eqb a want && node_eqb b want | _ => false end) |}
+         violated := c17 ok ++ (if keyed_wrong then [lit "C08"] else []) |}
   | _ => bad
   end.
 
